@@ -21,7 +21,7 @@ fn setup(ctx: &mut Ctx) {
 }
 
 fn strata(t: Tier) -> Vec<Stratum> {
-    vec![st("walker-corpus", scale(t, 24_000, 2_400_000, 30))]
+    vec![st("walker-corpus", scale(t, 48_000, 480_000, 30))]
 }
 
 fn armed<F: FnOnce()>(ctx: &mut Ctx, what: &str, input: &[u8], f: F) -> bool {
